@@ -275,7 +275,18 @@ pub fn c19(args: &[Val]) -> Val {
     if tw.as_bytes() != p || !tw.is_windows() || tw.to_path().to_path_buf() != tw {
         bad.push(c("typed_windows_roundtrip", vec![]));
     }
-    let mut v = vec![opt(ts, |x| b(x)), b(lossy), b(disp), Val::Bool(bad.is_empty())];
+    // Display ignores width, fill and precision -- for the borrowed adaptor, the owned one and the path itself
+    let ub = UnixPathBuf::from(p);
+    let wb = WindowsPathBuf::from(p);
+    let fmts = vec![
+        b(format!("{:>40}", up.display()).into_bytes()),
+        b(format!("{:.2}", up.display()).into_bytes()),
+        b(format!("{:*<40}", ub.display()).into_bytes()),
+        b(format!("{:.2}", wb.display()).into_bytes()),
+        b(format!("{:>40}", wp.display()).into_bytes()),
+        b(format!("{:.2}", TypedPathBuf::from_unix(p).to_path().display()).into_bytes()),
+    ];
+    let mut v = vec![opt(ts, |x| b(x)), b(lossy), b(disp), Val::Bool(bad.is_empty()), Val::L(fmts)];
     if !bad.is_empty() {
         v.push(Val::L(bad));
     }
